@@ -831,7 +831,7 @@ fn oracle_c17(rep: &mut Report, c: &Case, spec: &openapiv3::OpenAPI, h: &hir::Hi
             hir::Record::NewType(n) => (n.doc.as_ref().map(|d| d.0.trim().to_string()), "newtype"),
             hir::Record::TypeAlias(_, _) => (None, "alias"),
         };
-        if kind == "alias" { if want.is_some() { rep.bump("c17_alias_description_not_representable"); } continue; }
+        if kind == "alias" { if want.is_some() { rep.oracle_fail("schemaDoc", vec!["aliasDescriptionDropped".to_string()], &case, &format!("{name} is emitted as a type alias and its description {want:?} is dropped")); } continue; }
         if want != got { rep.oracle_fail("schemaDoc", vec![], &case, &format!("{name} ({kind}): expected {want:?}, got {got:?}")); } else { rep.bump("c17_schema_docs_ok"); }
         if let (openapiv3::SchemaKind::Type(openapiv3::Type::Object(o)), hir::Record::Struct(st)) = (&s.kind, r) {
             for (pn, pref) in &o.properties {
